@@ -136,14 +136,15 @@ pub fn any_ispec(h: InstanceHandle) -> ISpec {
 pub fn mk_inst(i: &ISpec) -> InstanceState {
     InstanceState::verif_from_parts(i.h, i.view, i.st, i.dgc, i.nwgc, i.ts)
 }
-/// Observed (view, state, disposed gen, no-writers gen) of an instance of the real reader.
+/// Observed (view, state, disposed gen, no-writers gen) of an instance of the real reader (the
+/// harnesses never build more than 3 instances / ownership records; they assert the lengths).
 pub fn inst_parts(
     r: &DataReaderEntity<()>,
     h: &InstanceHandle,
 ) -> Option<(ViewStateKind, InstanceStateKind, i32, i32, Time)> {
     let mut out = None;
     let mut i = 0;
-    while i < 4 {
+    while i < 3 {
         if i < r.instances.len() && r.instances[i].handle == *h && out.is_none() {
             out = Some(r.instances[i].verif_parts());
         }
@@ -161,7 +162,7 @@ pub fn inst_unchanged(r: &DataReaderEntity<()>, i: &ISpec) -> bool {
 pub fn inst_count(r: &DataReaderEntity<()>, h: &InstanceHandle) -> usize {
     let mut c = 0;
     let mut i = 0;
-    while i < 4 {
+    while i < 3 {
         if i < r.instances.len() && r.instances[i].handle == *h {
             c += 1;
         }
@@ -197,7 +198,7 @@ pub fn mk_sample(s: &SSpec) -> ReaderSample {
 /// Field-wise equality of a stored sample with its specification, with an expected sample state.
 pub fn sample_is(x: &ReaderSample, s: &SSpec, ss: SampleStateKind) -> bool {
     x.kind == s.kind
-        && x.writer_guid == s.writer
+        && eq16(&x.writer_guid, &s.writer)
         && x.instance_handle == s.h
         && x.source_timestamp == s.ts
         && x.sample_state == ss
@@ -255,6 +256,22 @@ pub fn reader(qos: DataReaderQos) -> DataReaderEntity<()> {
     r.enabled = true;
     r
 }
+/// Same reader with exactly sized buffers (capacity is not observable by the code under test; small
+/// heap objects keep the solver's memory model small: Vec::new() would grow to capacity 4).
+pub fn reader_sized(
+    qos: DataReaderQos,
+    instances: usize,
+    samples: usize,
+    publications: usize,
+    ownerships: usize,
+) -> DataReaderEntity<()> {
+    let mut r = reader(qos);
+    core::mem::forget(core::mem::replace(&mut r.instances, Vec::with_capacity(instances)));
+    core::mem::forget(core::mem::replace(&mut r.sample_list, Vec::with_capacity(samples)));
+    core::mem::forget(core::mem::replace(&mut r.matched_publication_list, Vec::with_capacity(publications)));
+    core::mem::forget(core::mem::replace(&mut r.instance_ownership, Vec::with_capacity(ownerships)));
+    r
+}
 
 pub fn ownership(h: InstanceHandle, owner: [u8; 16], t: Time) -> InstanceOwnership {
     InstanceOwnership {
@@ -268,7 +285,7 @@ pub fn owner_of(r: &DataReaderEntity<()>, h: &InstanceHandle) -> (usize, Option<
     let mut c = 0;
     let mut o = None;
     let mut i = 0;
-    while i < 4 {
+    while i < 3 {
         if i < r.instance_ownership.len() && r.instance_ownership[i].instance_handle == *h {
             if o.is_none() {
                 o = Some(r.instance_ownership[i].owner_handle);
@@ -299,4 +316,66 @@ pub fn in_vmask(m: &[ViewStateKind; 2], x: ViewStateKind) -> bool {
 }
 pub fn in_imask(m: &[InstanceStateKind; 3], x: InstanceStateKind) -> bool {
     m[0] == x || m[1] == x || m[2] == x
+}
+
+// ---- loop-free replacements for the derived 16-byte comparisons of `InstanceHandle` ------------------
+// The derived `PartialEq`/`Ord` of `InstanceHandle([u8; 16])` compile to a `memcmp` loop.  Inside
+// `create_sample_collection` they are evaluated in loops over vectors whose length depends on
+// symbolic conditions, which CBMC unrolls up to the global bound: 17 x 17 x 16 iterations per
+// comparison site (measured: no answer in 900 s for ONE stored sample).  The harnesses therefore
+// stub the two trait methods with the byte-wise definitions below; `c20_stub_equivalence` proves
+// (with the real methods, unwind 17) that they agree with the derived ones on all inputs.
+pub fn bytes_of(h: &InstanceHandle) -> [u8; 16] {
+    <[u8; 16]>::from(*h)
+}
+/// Branch-free equality of two 16-byte arrays (one 128-bit comparison instead of a memcmp loop).
+pub fn eq16(a: &[u8; 16], b: &[u8; 16]) -> bool {
+    u128::from_be_bytes(*a) == u128::from_be_bytes(*b)
+}
+pub fn ih_eq(a: &InstanceHandle, b: &InstanceHandle) -> bool {
+    eq16(&bytes_of(a), &bytes_of(b))
+}
+/// Lexicographic order of the 16 bytes as two big-endian 64-bit words (= derived `Ord` of `[u8; 16]`).
+pub fn ih_cmp(a: &InstanceHandle, b: &InstanceHandle) -> core::cmp::Ordering {
+    let x = u128::from_be_bytes(bytes_of(a));
+    let y = u128::from_be_bytes(bytes_of(b));
+    if x < y {
+        core::cmp::Ordering::Less
+    } else if x == y {
+        core::cmp::Ordering::Equal
+    } else {
+        core::cmp::Ordering::Greater
+    }
+}
+pub fn ih_partial_cmp(a: &InstanceHandle, b: &InstanceHandle) -> Option<core::cmp::Ordering> {
+    Some(ih_cmp(a, b))
+}
+
+// ---- loop-free replacements for array equality -----------------------------------------------------------
+// `[u8; 16] == / != [u8; 16]` (writer guids, publication keys) compile to a 16-iteration `memcmp`
+// loop, which forces the global unwinding bound to 17; with that bound every loop over a vector whose
+// length depends on a symbolic condition is unrolled 17 times (measured: the formula doubles).  The
+// C24 harnesses stub the two methods of `impl PartialEq<[U; N]> for [T; N]` with the element-wise
+// definitions below (N <= 16, anything larger fails the harness).
+pub fn arr_eq<T: core::cmp::PartialEq<U>, U, const N: usize>(a: &[T; N], b: &[U; N]) -> bool {
+    assert!(N <= 16, "stub arr_eq: arrays longer than 16 elements are not covered");
+    (N < 1 || a[0] == b[0])
+        & (N < 2 || a[1 % N] == b[1 % N])
+        & (N < 3 || a[2 % N] == b[2 % N])
+        & (N < 4 || a[3 % N] == b[3 % N])
+        & (N < 5 || a[4 % N] == b[4 % N])
+        & (N < 6 || a[5 % N] == b[5 % N])
+        & (N < 7 || a[6 % N] == b[6 % N])
+        & (N < 8 || a[7 % N] == b[7 % N])
+        & (N < 9 || a[8 % N] == b[8 % N])
+        & (N < 10 || a[9 % N] == b[9 % N])
+        & (N < 11 || a[10 % N] == b[10 % N])
+        & (N < 12 || a[11 % N] == b[11 % N])
+        & (N < 13 || a[12 % N] == b[12 % N])
+        & (N < 14 || a[13 % N] == b[13 % N])
+        & (N < 15 || a[14 % N] == b[14 % N])
+        & (N < 16 || a[15 % N] == b[15 % N])
+}
+pub fn arr_ne<T: core::cmp::PartialEq<U>, U, const N: usize>(a: &[T; N], b: &[U; N]) -> bool {
+    !arr_eq(a, b)
 }
